@@ -103,6 +103,16 @@ func c18(c *Ctx) {
 					}
 				}
 				c.R.Check(good, site(p)+" fails-closed", c.pos(p.Pos()), "a parse error returns true (differs)", "an unparsable reference is not treated as a different org")
+				// both sides are parsed with the configured default registry (sibling agreement):
+				// an unqualified source must resolve to the same registry on both sides
+				withDef := false
+				if len(p.Common().Args) > 1 {
+					withDef = flow.Default.Any(p.Common().Args[1], func(v ssa.Value) bool {
+						ci, ok := v.(*ssa.Call)
+						return ok && strings.HasSuffix(cfgx.CalleeName(ci), "name.WithDefaultRegistry") && flow.Default.Any(ci.Call.Args[0], func(y ssa.Value) bool { return isFieldSel(y, "roles.OrgDiffer", "DefaultRegistry") })
+					})
+				}
+				c.R.Check(withDef, site(p)+" default-registry", c.pos(p.Pos()), "parsed with name.WithDefaultRegistry(d.DefaultRegistry)", "this reference is parsed without the configured default registry: an unqualified source resolves to index.docker.io on one side only, so packages of different registries compare as the same registry")
 			}
 		}
 		// registry inequality returns true; final result compares first path segments
